@@ -156,6 +156,40 @@ def run(tier):
         traces.append([{k: e[k] for k in ('r', 'ctr', 'wf', 'req')} for e in t])
         meta.append({'impl': 'Server', 'source': 'const', 'start': t[0]['ctr'], 'note': nm,
                      'ids': [e['id'] for e in t[:4]]})
+    # ids as the servers issue them: through real open requests, accepted and rejected, polling
+    # and websocket, under a constant random source
+    from ..harness import world as W
+    from . import httpcommon as H
+    for impl in ('sync', 'async'):
+        for pattern in ('aaaa', 'arar', 'rraa', 'arra', 'raar'):
+            src.mode = 'const'
+            w = W.make_world(impl, {'ping_interval': 400, 'ping_timeout': 200})
+            try:
+                intern = {}
+                tr = []
+                for k in range(wlen):
+                    out = pattern[k % len(pattern)]
+                    w.connect_plan = [('accept' if out == 'a' else 'reject', False)]
+                    w.last_connect_sid = None
+                    src.calls.clear()
+                    if k % 3 == 2:
+                        H.run_request(w, 'GET', 'transport=websocket&EIO=4', ws=True)
+                    else:
+                        H.run_request(w, 'GET', 'transport=polling&EIO=4')
+                    sid = w.last_connect_sid
+                    raw = decode_id(sid)
+                    wf = isinstance(sid, str) and len(sid) == 20 and set(sid) <= ALPHABET and \
+                        raw is not None and len(raw) == 15
+                    got = b''.join(o for _, o in src.calls)
+                    tr.append({'r': intern.setdefault(raw[:12] if wf else b'?', len(intern)) if wf else -1,
+                               'ctr': int.from_bytes(raw[12:], 'big') if wf else -1,
+                               'wf': bool(wf and raw[:12] in got), 'req': sum(n for n, _ in src.calls)})
+                traces.append(tr)
+                meta.append({'impl': impl, 'source': 'const', 'via': 'open requests ' + pattern,
+                             'start': tr[0]['ctr']})
+                ck.distinct([impl, 'opens', pattern])
+            finally:
+                w.close()
     v = tracecheck.validate('EioSidTrace', traces,
                             constants={'M': M24, 'Rnd': '{}'},
                             invariants=['Unique', 'CountersConsecutive'])
